@@ -359,7 +359,16 @@ func runDynamic(id string, args []string) {
 		if rc.Thorough() {
 			nConf, perSet = 160, 10
 		}
-		confPkgs = pick(confPkgs, nConf, rc.Seed)
+		var largePkgs, smallPkgs []string
+		for _, pkg := range confPkgs {
+			if it := corpus.ByPkg[pkg]; it != nil && it.Decl.Large {
+				largePkgs = append(largePkgs, pkg)
+			} else {
+				smallPkgs = append(smallPkgs, pkg)
+			}
+		}
+		// the large shapes (complete fault-free orders, one per Mazurkiewicz trace) next to the small ones
+		confPkgs = append(pick(smallPkgs, nConf, rc.Seed), pick(largePkgs, 6, rc.Seed)...)
 		confFams := fams
 		if id == "C08" && !rc.Thorough() {
 			confFams = "fault,cancel"
